@@ -279,7 +279,7 @@ pub fn property() -> Property {
     jobs.push(
         job(
             "VClock/random",
-            40_000,
+            100_000,
             1_000_000,
             || strat((rand_clock(), rand_clock(), rand_clock()).prop_map(|(a, b, c)| RandCase { a, b, c })),
             |t: &RandCase, st: &mut Stats| {
@@ -319,6 +319,30 @@ pub fn property() -> Property {
                 Ok(())
             },
         )
+        .decoder(|d: &[u8]| {
+            let mut r = crate::plan::Reader::new(d);
+            let mut clock = |r: &mut crate::plan::Reader| -> Vec<(u8, u64)> {
+                let n = (r.u8() % 7) as usize;
+                (0..n)
+                    .map(|_| {
+                        let a = r.u8() % 6;
+                        let c = match r.u8() % 4 {
+                            0 | 1 => (r.u8() % 4) as u64,
+                            2 => r.u16() as u64,
+                            _ => u64::MAX / 2 - (r.u8() % 4) as u64,
+                        };
+                        (a, c)
+                    })
+                    .collect()
+            };
+            if d.len() < 6 {
+                return None;
+            }
+            let a = clock(&mut r);
+            let b = clock(&mut r);
+            let c = clock(&mut r);
+            Some(RandCase { a, b, c })
+        })
         .floor("nontrivial", 0.2)
         .boxed(),
     );
